@@ -22,6 +22,7 @@ import struct
 from decimal import Decimal
 
 import vlib
+import progs
 
 THEOREM_MODULES = ["Yarel.Props.C12"]
 REQUIRED_THEOREMS = ["coherent_fixed", "bucketed_refines_assoc", "assoc_is_map_by_eq", "unhashable_rejected_unchanged",
@@ -652,6 +653,14 @@ def gen_sequence(rng, index, avoid_neg_zero):
         keys = [op["k"]] if "k" in op else [p[0] for p in op.get("pairs", [])]
         if any(not hashable(k["d"]) for k in keys) and rng.chance(2, 3):
             ops.append({"op": "items"})
+    if rng.chance(1, 3):
+        # an insert over an EXISTING key whose new value is == to the stored one without being the same value (zero of the other sign):
+        # the entry must hold the value inserted last
+        k = key_use()
+        if hashable(k["d"]):
+            for vsrc, vd in (("0", N(0)), ("-0", N(-0.0)), ("0", N(0)), ("(0, \"z\")", T(N(0), S("z"))), ("(-0, \"z\")", T(N(-0.0), S("z")))):
+                ops.append({"op": "insert", "k": k, "v": {"x": vsrc, "d": vd}})
+                ops.append({"op": "get", "k": k})
     ops.append({"op": "items"})
     ops.append({"op": "len"})
     return {"pool": entries, "ops": ops}
@@ -939,10 +948,43 @@ def check_hash_transcription(model_ok, broken, failures):
     return n
 
 
+def deep_key_lines():
+    out = ["fn nest(levels) { var t = (7,); var i = 1; while i < levels { t = (t,); i = i + 1; } return t; }", "var dm = {};"]
+    exp = []
+    n = 0
+    for lv in (1, 2, 3, 8, 31, 32, 33, 63, 64, 65, 66, 100, 127, 128, 129, 200, 255, 256, 257, 400):
+        n += 1
+        out.append("dm.insert(nest(%d), %d); print(dm.len()); print(dm.get(nest(%d))); print(dm.has_key(nest(%d))); print(dm.has_key(nest(%d)));" % (lv, lv, lv, lv, lv + 1 if lv != 400 else 399))
+        exp += [str(n), str(lv), "true", "false"]
+    out.append("var lit = {nest(70): \"lit\", nest(3): \"three\"}; print(lit.get(nest(70))); print(lit.len()); print(dm.remove(nest(65))); print(dm.len()); print(dm.has_key(nest(65)));")
+    exp += ["lit", "2", "65", str(n - 1), "false"]
+    return "\n".join(out) + "\n", exp
+
+
+DIRECTED12 = [
+    # the entry holds the value inserted LAST, also when it is == to the one it replaces: two distinct vectors / maps / tuples holding one
+    ("overwrite-with-an-equal-but-distinct-value",
+     "var m = {}; var first = []; var second = []; m.insert(\"k\", first); m.insert(\"k\", second); second.push(1); print(m.get(\"k\")); print(m.values()[0]); first.push(2); first.push(3); print(m.get(\"k\"));\n"
+     "var ma = {}; var mb = {}; m.insert(7, ma); m.insert(7, mb); mb.insert(\"x\", 1); print(m.get(7).len()); var ta = (1, []); var tb = (1, []); m.insert(8, ta); m.insert(8, tb); tb[1].push(9); print(m.get(8));\n"
+     "var lit = {\"k\": first, \"k\": second}; print(lit.get(\"k\")); print(m.insert(\"k\", first) == second); print(m.get(\"k\"));\n"
+     "m.insert(\"zero\", 0); m.insert(\"zero\", -0); print(m.get(\"zero\")); m.insert(\"zero\", 0); print(m.get(\"zero\")); print(m.len());\n",
+     ["[1]", "[1]", "[1]", "1", "(1, [9])", "[1]", "true", "[2, 3]", "-0", "0", "4"]),
+    ("tuple-keys-of-any-depth",) + deep_key_lines(),
+]
+
+
 def correspondence(ctx, model_ok=True):
     rng = ctx.rng.fork("c12")
     failures = []
     broken = []
+    for mode in ({"gc": "default"}, {"gc": "always", "quarantine": 1}):
+        dres, _ = progs.run_programs(ctx.runner, [(n, src, {}) for n, src, _ in DIRECTED12], mode, steps_budget=50000000, tag="d")
+        for (name, src, exp), r in zip(DIRECTED12, dres):
+            c = progs.canon_step(r)
+            if c[0] != "ok" or list(c[2]) != exp:
+                k = next((i for i, (x, y) in enumerate(zip(list(c[2]) if len(c) > 2 else [], exp)) if x != y), min(len(c[2]) if len(c) > 2 else 0, len(exp)))
+                failures.append({"what": "map scenario '%s': line %d is %s, the abstract map gives %s (%s %s)" % (name, k, list(c[2])[k:k + 1] if len(c) > 2 else c, exp[k:k + 1], c[0], list(c[3])[:1] if len(c) > 3 else ""),
+                                 "program": src, "expected": exp, "signature": "scenario " + name, "failing_input": True})
     n_seq = 9000 if ctx.thorough else 2700
     seqs = [gen_sequence(rng.fork("seq%d" % i), i, AVOID_NEG_ZERO) for i in range(n_seq)]
     stats = {"evaluations": 0, "evaluations_gc_always": 0, "sequences": 0, "ops": {}, "unhashable": 0, "nan": 0, "enums": 0,
